@@ -372,7 +372,7 @@ class MergeData(Contract):
     loops = {1: LoopSpec(_md_inv, _md_havoc, "for-input")}
     has_native = True
     max_paths = 20000
-    bounded_scope = "2-3 point clouds / curves with 0-2 float data each (names shared or not, entity types shared between differently named data or not, vertex or cell association, inputs without data in any position); deductive part: any number of inputs, each with 0-2 children, label table abstracted to 0-1 earlier label"
+    bounded_scope = "2-3 point clouds / curves with 0-2 float data each (names shared or not, entity types shared between differently named data or not, vertex or cell association, inputs without data in any position; about half of the cases on a file, re-opened and compared again); deductive part: any number of inputs, each with 0-2 children, label table abstracted to 0-1 earlier label"
 
     def setup(self, ctx):
         ctx.env["ndv"] = sym("nan_value", "real")
@@ -400,7 +400,24 @@ class MergeData(Contract):
         from geoh5py.shared.merging import CurveMerger
         from geoh5py.workspace import Workspace
 
-        with Workspace() as ws:
+        import os
+        import shutil
+        import tempfile
+
+        reopen = sum(len(x) for x in case["inputs"]) % 2 == 1 or len(case["inputs"]) == 3
+        tmp = tempfile.mkdtemp() if reopen else None
+        try:
+            return self._native(case, os.path.join(tmp, "m.geoh5") if reopen else None)
+        finally:
+            if tmp:
+                shutil.rmtree(tmp, ignore_errors=True)
+
+    def _native(self, case, path):
+        from geoh5py.objects import Curve
+        from geoh5py.shared.merging import CurveMerger
+        from geoh5py.workspace import Workspace
+
+        with (Workspace.create(path) if path else Workspace()) as ws:
             objs, expected, types = [], {}, {}
             voff = coff = 0
             total_v, total_c = sum(case["nv"]), sum(n - 1 for n in case["nv"])
@@ -438,6 +455,17 @@ class MergeData(Contract):
             for a, b in zip(snap, after):
                 if len(a) != len(b) or any(x[0] != y[0] or not np.array_equal(x[1], y[1], equal_nan=True) for x, y in zip(a, b)):
                     return "an input's data were modified"
+            merged_uid = merged.uid
+        if path:
+            # what was merged must also be what the file holds
+            with Workspace(path, mode="r") as back:
+                again = {}
+                for ch in back.get_entity(merged_uid)[0].children:
+                    if hasattr(ch, "association") and getattr(ch, "values", None) is not None:
+                        again[(ch.name, ch.entity_type.name, ch.association.name)] = np.asarray(ch.values, dtype=float)
+            for key, exp in expected.items():
+                if key not in again or again[key].shape != exp.shape or not np.array_equal(np.isnan(again[key]), np.isnan(exp)) or not np.allclose(np.nan_to_num(again[key]), np.nan_to_num(exp)):
+                    return f"data {key}: the re-opened file holds {None if key not in again else again[key].tolist()} but {exp.tolist()} was merged ({case})"
         return None
 
 
